@@ -71,6 +71,12 @@ def _huge_weights(rng, t):
             top = max(b2f(w) for w, _ in outs)
             k = rng.choice([1.2e308, 1.7e308, 9e307]) / top
             outs = [[f2b(b2f(w) * k), c] for w, c in outs]
+            if rng.random() < 0.5:
+                # ... next to a weight of ordinary size, at any position (its probability is tiny but positive)
+                j = rng.choice([0, 0, len(outs) - 1, rng.randrange(len(outs))])
+                outs[j] = [f2b(rng.choice([1.0, 0.5, 4.0])), outs[j][1]]
+                if len(outs) == 2:
+                    outs.append([f2b(1.1e308), outs[1 - j][1]] if False else [f2b(1.1e308), {"t": f2b(0.5)}])
         return {"c": t.get("c"), "o": outs}
     return {"p": t["p"], "i": t["i"], "a": [[a, _huge_weights(rng, c)] for a, c in t["a"]]}
 
@@ -87,8 +93,9 @@ def corpus():
     # D14: finite positive weights whose sum overflows binary64 (accepted; must be solvable)
     big = {"c": None, "o": [[f2b(1e308), {"p": 1, "i": 1, "a": [[1, _t(1.0)], [2, _t(0.0)]]}],
                             [f2b(1e308), {"p": 2, "i": 2, "a": [[1, _t(1.0)], [2, _t(-1.0)]]}]]}
+    big2 = {"p": 1, "i": 9, "a": [[1, _t(0.25)], [2, {"c": None, "o": [[f2b(1.0), _t(-8.0)], [f2b(1e308), _t(1.0)], [f2b(1e308), _t(1.0)]]}]]}
     for k, t in enumerate([d3, d4a, d4b, _t(float("nan")), _t(float("inf")),
-                           {"c": None, "o": [[f2b(1.0), _t(1.0)], [f2b(1.0), _t(float("-inf"))]]}, big]):
+                           {"c": None, "o": [[f2b(1.0), _t(1.0)], [f2b(1.0), _t(float("-inf"))]]}, big, big2]):
         out.append(build(1000000 + k, t, tree_stats(t), ["corpus"], contract.violations(t)))
     return out
 
